@@ -9,6 +9,7 @@
 import Psa.Proofs.EncPlain
 import Psa.Tie.Encoding
 import Psa.Proofs.EncJson
+import Psa.Proofs.JsonTokens
 namespace Psa.Props.C15
 open Psa Psa.Model Psa.Model.Enc Psa.Proofs.Enc
 
@@ -98,6 +99,29 @@ theorem json_omap_invariant :
     (∀ m k, Proofs.EncJ.JInv m → Proofs.EncJ.JInv (m.delete k)) :=
   ⟨Proofs.EncJ.inv_empty, fun m m' k v hi h => Proofs.EncJ.add_inv m m' k v hi h, fun m k hi => Proofs.EncJ.delete_inv m k hi⟩
 
+
+/-! ### JSON side, token level: the two hand-written loops behind `FromJSON` (`unmarshalKeys`, `skipValue`) -/
+
+/-- **stable key order, at the level of the code's token walk**: on the token stream Go's decoder yields for an
+    object — any members, any nesting inside the member values, duplicated names included — `unmarshalKeys` leaves
+    exactly the member names in document order -/
+theorem json_keys_in_document_order (ms : List (Bytes × Json)) :
+    JTok.unmarshalKeys (JTok.tokens (.obj ms)) = .ok (ms.map (·.1)) :=
+  Proofs.JTok.unmarshalKeys_obj ms
+
+/-- `skipValue` skips exactly one value, whatever it contains, and stops in front of what follows it -/
+theorem json_skip_value_exact (v : Json) (rest : List JTok.Tok) :
+    JTok.skipValue (2 * (JTok.tokens v ++ rest).length + 2) (JTok.tokens v ++ rest) = .ok rest :=
+  Proofs.JTok.skipValue_tokens v _ rest (by simp only [List.length_append]; omega)
+
+/-- **the token loops refine the tree-level ordered map** the `json_*` theorems above are about: for every document,
+    the same verdict (objects only) and the same `Keys` -/
+theorem json_token_layer_refines_tree (j : Json) :
+    JTok.fromJSONKeys j = (match EncJ.fromJSON j with
+      | .ok m => .ok m.keys
+      | _ => .err) :=
+  Proofs.JTok.fromJSONKeys_refines j
+
 /-! non-vacuity: a two-level shape (outer, embedded, embedded-in-embedded) with optional fields absent and present
     meets the hypotheses, and the all-empty value of an all-optional shape does too -/
 def exShape : Shape :=
@@ -113,5 +137,8 @@ example : KeysInt64 exShape := by
 example : Fits (.mk [⟨1, true, .int⟩, ⟨2, true, .text⟩] []) (.mk [none, none] []) := by
   simp [Fits, FitsList, TypedAll, Typed]
 example : serialize (.mk [⟨1, true, .int⟩, ⟨2, true, .text⟩] []) (.mk [none, none] []) = .ok [0xa0] := by decide
+example : JTok.unmarshalKeys (JTok.tokens (.obj [(strBytes "a", .arr [.obj [(strBytes "x", .null)], .int 1]), (strBytes "a", .str [])]))
+    = .ok [strBytes "a", strBytes "a"] := by decide
+example : JTok.unmarshalKeys (JTok.tokens (.arr [])) = .err := by decide
 
 end Psa.Props.C15
